@@ -603,20 +603,32 @@ def flag_keyed_optionals(ctx, report, RULE='C01.R12', only=None):
             pe, ce = ctx.canon.canon(c, 'parse').elements, ctx.canon.canon(c, 'compose').elements
         except Exception:      # pylint: disable=broad-except
             continue
+        def optional_parts(els):
+            # an optional group and its elements made optional one by one under the same condition are the same bytes
+            out = []
+            for e in els:
+                if e.kind == 'alt' and not e.b and len(e.a) > 1:
+                    out.extend((e.val, x) for x in e.a)
+                elif e.kind == 'alt':
+                    out.append((e.val, (e.a or e.b or [e])[0]))
+                else:
+                    out.append((None, e))
+            return out
+        pe, ce = optional_parts(pe), optional_parts(ce)
         if len(pe) != len(ce):
             continue        # a different element sequence is C01.R1's finding
-        for i, (a, b) in enumerate(zip(pe, ce)):
-            if a.kind != 'alt' or b.kind != 'alt' or a.val is None or b.val is None:
+        for i, ((ca, a), (cb, b)) in enumerate(zip(pe, ce)):
+            if ca is None or cb is None:
                 continue
-            sa_, sb_ = flag_sig(a.val), flag_sig(b.val)
+            sa_, sb_ = flag_sig(ca), flag_sig(cb)
             if sa_ is None and sb_ is None:
                 continue
             report.count(RULE)
             if sa_ == sb_:
                 continue
-            what = (a.a or a.b or [a])[0]
+            what = a
             name = getattr(what, 'key', None) or what.sig()
             report.add(RULE, '%s@optional[%s]' % (c.construct, name),
                        'the parser reads %s when `%s`, the composer writes it when `%s`: an object (or a message) on which the two conditions differ '
-                       'does not survive the round trip' % (name, show(a.val)[:90], show(b.val)[:90]))
+                       'does not survive the round trip' % (name, show(ca)[:90], show(cb)[:90]))
     report.floor(RULE, 2, 'flag keyed optional parts')
